@@ -182,6 +182,8 @@ def run(prop, tier, seed):
         orc = G.oracle(e)
         if not G.agrees(a, orc) or not G.agrees(ar, orc):
             prop_fail.append((e, line, a if not G.agrees(a, orc) else ar, b, orc))
+        elif C.timed_out(b):
+            hist["model-timeout-skipped"] += 1          # the property-level comparison with the oracle above still counts
         elif a != b or ar != b:
             corr_fail.append((e, line, a if a != b else ar, b, orc))
     # property-level failures: shrink, report
